@@ -45,7 +45,7 @@
 EXTENDS Naturals, Sequences, FiniteSets, TLC, Json
 CONSTANTS Conns, Keys, KeyOf,
           MaxFaults,          \* stream operations that may fail in one behaviour
-          SvcScript,          \* what each client does once served, in order: subset of <<"ping", "deliver">>
+          Script,             \* what each client does once served: "none" | "ping" | "full" (see SvcScript)
           Causes,             \* how a served connection ends: "close" "disc_id" "disc_key" "shutdown" "displaced"
           Helper,             \* TRUE: Displace(c) models an untracked newer connection of the same endpoint
           QuiescentEnv,       \* TRUE: the environment acts only while every connection is at rest (what a harness can force)
@@ -53,6 +53,7 @@ CONSTANTS Conns, Keys, KeyOf,
           GuardLate
 
 None == "none"
+SvcScript == IF Script = "full" THEN <<"ping", "deliver">> ELSE IF Script = "ping" THEN <<"ping">> ELSE <<>>
 WF4 == <<"ready", "write", "flush", "flush">>
 WF3 == <<"ready", "write", "flush">>
 RD  == <<"read">>
